@@ -869,6 +869,21 @@ class Interp:
             ti = tinfo(at, self.idx) if at else None
             if ti:
                 return const(64, False, ti[0] // 8)
+            if n.get('name') == 'sizeof':
+                # sizeof(expression) / sizeof(array type): element size x constant extents
+                import re as _re
+                t_ = at or ((children(n)[0].get('type') or {}).get('qualType') if children(n) else None) or ''
+                m_ = _re.match(r'^(.*?)((?:\[\d+\])+)$', t_.strip())
+                if m_:
+                    ti = tinfo(m_.group(1).strip(), self.idx)
+                    if ti:
+                        tot = ti[0] // 8
+                        for e_ in _re.findall(r'\[(\d+)\]', m_.group(2)):
+                            tot *= int(e_)
+                        return const(64, False, tot)
+                ti = tinfo(t_, self.idx) if t_ else None
+                if ti:
+                    return const(64, False, ti[0] // 8)
         raise AnalysisBroken('unsupported expression %s at %s' % (k, pos(n)))
 
     def negate(self, v, n):
@@ -1276,6 +1291,21 @@ class Interp:
                         self.store(lv, const(w_, False, val) if known else IV(w_, False, 0, (1 << w_) - 1), env)
                         return None
                 raise AnalysisBroken('unmodelled memcpy at %s' % pos(n))
+            if name in ('div', 'ldiv', 'lldiv') and len(args) == 2:
+                # std::div: quotient truncated towards zero, remainder with the sign of the dividend
+                a_, b_ = self.expr(args[0], env), self.expr(args[1], env)
+                if not (isinstance(a_, IV) and isinstance(b_, IV) and b_.concrete()):
+                    raise AnalysisBroken('std::div with a divisor that is not constant at %s' % pos(n))
+                if b_.lo == 0:
+                    self.ub_event('division-by-zero', n)
+                    return Obj('std::div_t', {'quot': const(a_.w, True, 0), 'rem': const(a_.w, True, 0)}, 'div_t')
+                if not a_.concrete():
+                    raise NeedSplit(None, 'std::div of a non-concrete value')
+                q_ = abs(a_.lo) // abs(b_.lo)
+                if (a_.lo < 0) != (b_.lo < 0):
+                    q_ = -q_
+                r_ = a_.lo - q_ * b_.lo
+                return Obj('std::div_t', {'quot': const(a_.w, True, q_), 'rem': const(a_.w, True, r_)}, 'div_t')
             if name == 'abs':
                 v = self.expr(args[0], env)
                 tlo, thi = rng(v.w, True)
@@ -1596,11 +1626,23 @@ class Interp:
                 ti = tinfo(fd, self.idx)
                 if ti and isinstance(v, IV):
                     v = self.convert(v, ti[0], ti[1])
+                    if fd.get('isBitfield') and not ti[1]:
+                        # an unsigned bit-field keeps the low `width` bits
+                        wexpr = [c_ for c_ in children(fd) if 'kind' in c_]
+                        bw = const_int(wexpr[0], self.idx) if wexpr else None
+                        if bw is None:
+                            raise AnalysisBroken('bit-field %s of unknown width' % a.get('name'))
+                        if v.concrete():
+                            v = const(ti[0], ti[1], v.lo & ((1 << bw) - 1))
+                        elif not (v.lo >= 0 and v.hi < (1 << bw)):
+                            raise NeedSplit(None, 'store of a non-concrete value into the %d-bit field %s' % (bw, a.get('name')))
                 if v is not None or not ti:
                     obj.fields[a['name']] = v
         # members the constructor does not mention take their default member initialiser
         for fd in rec.fields:
             ini = [c_ for c_ in children(fd) if 'kind' in c_]
+            if fd.get('isBitfield'):
+                ini = ini[1:]           # the first child of a bit-field is its width
             if ini and fd.get('name') not in obj.fields:
                 try:
                     v = self.expr(ini[-1], {'this': obj, 'locals': {}})
